@@ -286,8 +286,11 @@ def drop_half_lines(lines):
     """A fault handler terminates the line being written and appends its Fault event: drop that half line."""
     out = []
     for i, l in enumerate(lines):
-        if i + 1 < len(lines) and lines[i + 1].startswith('{"e":"Fault"') and not l.rstrip().endswith("}"):
-            continue
+        if i + 1 < len(lines) and lines[i + 1].startswith('{"e":"Fault"'):
+            try:
+                json.loads(l)
+            except ValueError:
+                continue
         if not l.strip():
             continue
         out.append(l)
